@@ -51,7 +51,7 @@ func main() {
 	nmono := flag.Int("mono", 2, "added references per package")
 	cperm := flag.Int("cperms", 1, "permutations per corpus package")
 	cmono := flag.Int("cmono", 1, "added references per corpus package")
-	maxOrders := flag.Int("maxorders", 30, "orders tried per directed package (all orders if it has that few)")
+	maxOrders := flag.Int("maxorders", 120, "orders tried per directed package (all orders if it has that few)")
 	shards := flag.Int("shards", 8, "number of case files")
 	corpus := flag.String("corpus", "", "comma separated dir:pattern+pattern (module roots)")
 	maxNodes := flag.Int("maxnodes", 4000, "skip corpus packages whose graph is larger")
@@ -219,7 +219,7 @@ func main() {
 				continue
 			}
 			o.Stats["directed"]++
-			process(p, false, 0, 1, p.AllOrders(*maxOrders))
+			process(p, false, 0, 1, p.AllOrders(*maxOrders, rnd))
 		}
 	}
 	lap("generated packages done")
